@@ -12,7 +12,7 @@ def run(ctx):
         "only white space, the four invisible operators and the length of a hyphen run",
         "python's xml.etree parser reads both the input and the returned string"])
     rng = ctx.rng
-    n = 2400 if ctx.tier == "quick" else 100000
+    n = 6000 if ctx.tier == "quick" else 150000
     results = canon_run.run_stream(ctx, im, mo, n, canon_run.LOCALES)
     # textbook expressions too (numbers with separators under every locale, chemistry on)
     tb = []
